@@ -80,6 +80,24 @@ fn main() {
     flow1!(c30::d_across_vs_local, KV);
     flow1!(c30::d_first_tick, KV);
     flow1!(c30::d_snapshot_total, KV);
+    flow1!(c30::f_cross_first, KV);
+    flow1!(c30::f_cross_const, KV);
+    flow1!(c30::f_cross_none, KV);
+    flow1!(c30::f_zip_count_first, KV);
+    flow1!(c30::f_zip_count_const, KV);
+    flow1!(c30::f_zip_max_first, KV);
+    flow1!(c30::f_zip_const_first, KV);
+    flow1!(c30::f_first_zip_count, KV);
+    flow1!(c30::f_filter_if_first, KV);
+    flow1!(c30::f_filter_if_some_first, KV);
+    flow1!(c30::f_filter_if_none_first, KV);
+    flow1!(c30::f_count_filter_if_some, KV);
+    flow1!(c30::f_chain_first, KV);
+    flow1!(c30::f_or_first, KV);
+    flow1!(c30::f_or_max_first, KV);
+    flow1!(c30::f_unwrap_cross, KV);
+    flow1!(c30::f_join_first, KV);
+    flow1!(c30::f_anti_first, KV);
 
     // --- C31 ----------------------------------------------------------------------------------
     flow1!(c31::s_basic, KV);
